@@ -108,6 +108,70 @@ func c02UnloggedMutators(c *Ctx, rule string) {
 				n++
 				key := t.Name + "|durable-without-log"
 				g := t.Graph()
+				// values (other than the error) that a page-changing callee hands back: a branch on one of them may
+				// separate "changed something" from "changed nothing" (created, found, n)
+				told := map[types.Object]bool{}
+				for _, cs2 := range cg.Sites[t] {
+					if cs2.InLit != nil || len(cs2.Targets) == 0 {
+						continue
+					}
+					dirty := false
+					for _, tt := range cs2.Targets {
+						if dirtying(tt) {
+							dirty = true
+						}
+					}
+					if !dirty {
+						continue
+					}
+					if sig, ok := cs2.Callee.Type().(*types.Signature); ok {
+						for i := 0; i < sig.Results().Len(); i++ {
+							if isErrorType(sig.Results().At(i).Type()) {
+								continue
+							}
+							if o := t.resultVar(t.Decl.Body, cs2.Call, i); o != nil {
+								told[o] = true
+							}
+						}
+					}
+				}
+				mentionsTold := func(e ast.Expr) bool {
+					hit := false
+					ast.Inspect(e, func(z ast.Node) bool {
+						if id, ok := z.(*ast.Ident); ok && told[t.ObjOf(id)] {
+							hit = true
+						}
+						return !hit
+					})
+					return hit
+				}
+				strict := func(b *cfg.Block, si int) bool {
+					if !g.SuccessEdges(b, si) {
+						return false
+					}
+					if info, ok := g.EdgeInfo(b, si); ok && !info.Case && mentionsTold(info.Cond) {
+						return false
+					}
+					return true
+				}
+				visitFlush := func(nn ast.Node, at Loc) Verdict {
+					if g.containsCall(nn, "storage.*.flushPages") != nil {
+						return Cut
+					}
+					if r, ok := nn.(*ast.ReturnStmt); ok {
+						if g.ReturnMayBeNil(r) {
+							return Hit
+						}
+						return Cut
+					}
+					return Go
+				}
+				missStrict, _ := g.Forward(nil, strict, visitFlush, func(b *cfg.Block) Verdict {
+					if g.IsNoReturnExit(b) {
+						return Go
+					}
+					return Hit
+				})
 				miss, _ := g.Forward(nil, g.SuccessEdges, func(nn ast.Node, at Loc) Verdict {
 					if g.containsCall(nn, "storage.*.flushPages") != nil {
 						return Cut
@@ -138,7 +202,9 @@ func c02UnloggedMutators(c *Ctx, rule string) {
 						return true
 					})
 				}
-				if miss {
+				if miss && !missStrict && len(told) > 0 {
+					c.Undecided(rule, key, "%s returns success without flushing only on a branch that tests what its page-changing callee reported: whether the callee changed anything when it reports that value is not decided", t.Name)
+				} else if miss {
 					c.Fail(rule, key, t.Decl.Pos(), "%s changes pages, writes no log record, and can return success without flushing: the statement is acknowledged but lost by a crash before the next timer flush", t.Name)
 				} else {
 					c.OK(rule, key, t.Decl.Pos(), 1, "every success return passes through flushPages")
